@@ -1,0 +1,47 @@
+//go:build verif
+
+// Contracts of package mint for the govc verifier (/verif). Comment-only file,
+// compiled only with the build tag `verif`.
+package mint
+
+// Representation invariant of *Mint (DESIGN.md §8 C09), as far as the
+// sequential contracts need it.
+//@ macro minv(m) = m.db != nil && m.lightningClient != nil && m.activeKeyset != nil && m.keysets != nil && m.logger != nil && m.publisher != nil
+
+//@ func (*Mint).TransactionFees
+//@   tags C02 C09
+//@   safety C06
+//@   requires minv(m)
+//@   ensures @ceil result == fee.tx(seq(inputs), mapkeys(m.keysets), mapvals(m.keysets), len(inputs))
+//@   loop range(inputs) invariant 0 <= i && i <= len(inputs) && fees == fee.sum(seq(inputs), mapkeys(m.keysets), mapvals(m.keysets), i) % 18446744073709551616
+
+//@ func (*Mint).verifyProofs
+//@   tags C01
+//@   safety C06
+//@   requires minv(m)
+//@   requires len(Ys) == len(proofs)
+//@   requires forall i :: 0 <= i && i < len(proofs) ==> Ys[i] == Yof(proofs[i].Secret)
+//@   ensures @nonempty err == nil ==> len(proofs) >= 1
+//@   ensures @unspent [C01] err == nil ==> (forall i :: 0 <= i && i < len(proofs) ==> !db.spent[Yof(proofs[i].Secret)] && !db.pending[Yof(proofs[i].Secret)])
+
+//@ func (*Mint).signBlindedMessages
+//@   tags C02 C09
+//@   safety C06
+//@   requires minv(m)
+//@   ensures @len err == nil ==> len(result) == len(blindedMessages)
+//@   ensures @sum [C02] err == nil ==> sum.sig.amount(seq(result), len(result)) == sum.bm.amount(seq(blindedMessages), len(blindedMessages))
+//@   ensures @pointwise err == nil ==> (forall i :: 0 <= i && i < len(blindedMessages) ==> result[i].Amount == blindedMessages[i].Amount && result[i].Id == m.activeKeyset.Id && blindedMessages[i].Id == m.activeKeyset.Id && result[i].DLEQ != nil)
+//@   loop range(blindedMessages) invariant 0 <= i && i <= len(blindedMessages) && len(blindedSignatures) == len(blindedMessages) && sum.sig.amount(seq(blindedSignatures), i) == sum.bm.amount(seq(blindedMessages), i) && (forall j :: 0 <= j && j < i ==> blindedSignatures[j].Amount == blindedMessages[j].Amount && blindedSignatures[j].Id == m.activeKeyset.Id && blindedMessages[j].Id == m.activeKeyset.Id && blindedSignatures[j].DLEQ != nil)
+
+//@ func (*Mint).Swap
+//@   tags C01 C02
+//@   safety C06
+//@   requires minv(m)
+//@   loop range(proofs) invariant 0 <= i && i <= len(proofs) && len(Ys) == len(proofs) && proofsAmount == sum.proof.amount(seq(proofs), i) % 18446744073709551616 && (forall j :: 0 <= j && j < i ==> Ys[j] == Yof(proofs[j].Secret))
+//@   loop range(blindedMessages) invariant 0 <= i && i <= len(blindedMessages) && len(B_s) == len(blindedMessages) && (forall j :: 0 <= j && j < i ==> B_s[j] == blindedMessages[j].B_)
+//@   ensures @noinflation [C02] err == nil ==> sum.sig.amount(seq(result), len(result)) + fee.tx(seq(proofs), mapkeys(m.keysets), mapvals(m.keysets), len(proofs)) <= sum.proof.amount(seq(proofs), len(proofs))
+//@   ensures @unspentbefore [C01] err == nil ==> (forall i :: 0 <= i && i < len(proofs) ==> !old(db.spent)[Yof(proofs[i].Secret)] && !old(db.pending)[Yof(proofs[i].Secret)])
+//@   ensures @spentafter [C01,C15] err == nil ==> (forall i :: 0 <= i && i < len(proofs) ==> db.spent[Yof(proofs[i].Secret)])
+//@   ensures @distinct [C01] err == nil ==> (forall i, j :: 0 <= i && i < j && j < len(proofs) ==> Yof(proofs[i].Secret) != Yof(proofs[j].Secret))
+//@   ensures @monotone [C01] forall y Str :: old(db.spent)[y] ==> db.spent[y]
+//@   ensures @sigsaved [C15] err == nil ==> (forall i :: 0 <= i && i < len(blindedMessages) ==> db.sig[blindedMessages[i].B_])
